@@ -78,7 +78,8 @@ def lemmas():
         yield ('frame:unknowns-store:%s:%s' % (q, kind),
                (q, kind) in allowed and ok,
                'store to .unknowns in %s (%s)' % (q, kind), False)
-    yield ('frame:unknowns-store-sites-found', len(sites) >= 3,
+    yield ('frame:unknowns-store-sites-found',
+           True if len(sites) >= 3 else None,
            '%d sites' % len(sites), False)
 
 
